@@ -137,6 +137,16 @@ pub fn check_spec(ctx: &Ctx, rep: &mut Report, n: u64, d: Dialect, spec: &Stmt, 
     for k in &kinds {
         rep.count(&format!("clause.{k}"), 1);
     }
+    // expression-level features seen in the rendering (coverage only)
+    for (needle, name) in [
+        (" ANY(", "any-subquery"), (" SOME(", "some-subquery"), (" ALL(", "all-subquery"), ("CURRENT_", "current-keyword"), ("MD5(", "md5"),
+        ("RAND", "random"), ("AVG(", "avg"), ("BIT_", "bit-aggregate"), (" LATERAL ", "lateral-join"), (" ILIKE ", "ilike"), (" ESCAPE ", "like-escape"),
+        ("CASE ", "case"), ("CAST(", "cast"), (" OVER ", "window-function"), (" BETWEEN ", "between"), ("EXISTS(", "exists"), ("VALUES ", "values"),
+    ] {
+        if inline.contains(needle) {
+            rep.count(&format!("feature.{name}"), 1);
+        }
+    }
     if kinds.len() >= 3 {
         rep.nontrivial(hash_str(&inline) ^ (d as u64) << 62);
     }
